@@ -52,6 +52,17 @@ Theorem C03_whole_run_at_most : forall w o t,
 Proof. exact starts_at_most. Qed.
 Print Assumptions C03_whole_run_at_most.
 
+(* --list-tests shows, for every layer in run order, the layer's tests in suite order (`listing`); without -x, in EVERY process of a
+   run the sequence of test starts is that listing restricted to the layers the process actually ran (a sub-list, same order), each
+   layer's list repeated once per --repeat iteration: a run executes the tests in precisely the listed order *)
+From ZT Require Import RunListing.
+Theorem C03_whole_run_follows_listing : forall w o, o_x o = false ->
+  (exists ran_here, sublist ran_here (ordered_layers w) /\ start_ids (r_parent (run w o)) = play w o ran_here) /\
+  (forall c, In c (r_children (run w o)) ->
+     start_ids (c_ev c) = [] \/ exists l, In l (ordered_layers w) /\ start_ids (c_ev c) = times (reps o) (listed w l)).
+Proof. exact run_follows_listing. Qed.
+Print Assumptions C03_whole_run_follows_listing.
+
 (* observation level: the predicate Obs.c03_ok evaluated on the implementation's observation holds of the model's
    observation of every run; a sequential case without correspondence difference therefore satisfies it *)
 From ZT Require Import Chk_World Obs ModelCase ObsC03.
